@@ -21,10 +21,16 @@ fn fmt_of(s: &str) -> Fmt {
 
 /// one decoder call against the reference decoder
 pub fn decode_case<G: GroupApi>(f: Fmt, b: &[u8]) -> Result<u32, Bad> {
+    decode_case_opt::<G>(f, b, true)
+}
+/// `strict`: also require that an accepted input denotes the reference point and re-encodes to the input
+/// (C08); with strict = false only acceptance / rejection is compared (C09)
+pub fn decode_case_opt<G: GroupApi>(f: Fmt, b: &[u8], strict: bool) -> Result<u32, Bad> {
     let want = G::ref_decode(f, b);
     let got = lib(&format!("{} {} decoder on {} bytes", G::NAME, f.name(), b.len()), || G::decode(f, b))?;
     match (got, want) {
         (Err(_), None) => Ok(1),
+        (Ok(_), Some(_)) if !strict => Ok(1),
         (Ok(g), Some(w)) => {
             let a = alpha::<G>(&g);
             ensure!(a == w, "wrong-point", "{} {} decoder: {} decodes to {} , expected {}", G::NAME, f.name(), refmodel::hex(b), pt_json::<G>(&a), pt_json::<G>(&w));
@@ -443,10 +449,7 @@ pub fn c09_g1_case(x: &N, y: &N) -> Result<u32, Bad> {
     if let Ok(g) = got {
         ensure!(alpha::<G1>(&g) == p, "wrong-point", "AffineG1::new({:x}, {:x}) denotes another point", x, y);
     }
-    let mut raw = be(x, 32);
-    raw.extend(be(y, 32));
-    decode_case::<G1>(Fmt::Raw, &raw)?;
-    Ok(2)
+    Ok(1)
 }
 /// one candidate (x, y) for G2 through AffineG2::new and all three decoders
 pub fn c09_g2_case(x: &F2, y: &F2) -> Result<u32, Bad> {
@@ -465,18 +468,14 @@ pub fn c09_g2_case(x: &F2, y: &F2) -> Result<u32, Bad> {
     if let Ok(g) = got {
         ensure!(alpha::<G2>(&g) == p, "wrong-point", "AffineG2::new denotes another point for ({}, {})", crate::api::jf2(x), crate::api::jf2(y));
     }
+    // every G2 decoder accepts exactly the members (which point an accepted input denotes is C08/C10's business)
     let raw = refmodel::g2_raw(&p).unwrap();
-    decode_case::<G2>(Fmt::Raw, &raw)?;
-    decode_case::<G2>(Fmt::Uncompressed, &refmodel::g2_uncompressed(&p).unwrap())?;
-    if oc {
-        // the compressed form only makes sense for points of the curve
-        decode_case::<G2>(Fmt::Compressed, &refmodel::g2_compressed(&p).unwrap())?;
-    } else {
-        // (prefix by parity, x) decodes to some other y or to nothing; still must agree with the reference
-        let mut c = vec![if y.a.bit(0) { 3u8 } else { 2u8 }];
-        c.extend(refmodel::f2_bytes(x));
-        decode_case::<G2>(Fmt::Compressed, &c)?;
-    }
+    decode_case_opt::<G2>(Fmt::Raw, &raw, false)?;
+    decode_case_opt::<G2>(Fmt::Uncompressed, &refmodel::g2_uncompressed(&p).unwrap(), false)?;
+    // the compressed form drops y: the decoder must accept exactly when SOME point with this x is in G2
+    let mut cb = vec![if y.a.bit(0) { 3u8 } else { 2u8 }];
+    cb.extend(refmodel::f2_bytes(x));
+    decode_case_opt::<G2>(Fmt::Compressed, &cb, false)?;
     Ok(4)
 }
 pub fn c09_run(run: &Run) {
